@@ -1,7 +1,39 @@
 """Property -> rules map, and the reasons for properties not claimed."""
 from .rules.algebra import rule_algebra, rule_parallel
+from .rules.defassign import rule_defassign
+from .rules.dispatch import rule_dispatch, rule_stable
+from .rules.refusals import rule_assert, rule_kwsig, rule_raise, rule_regkey
+from .rules.truthy import rule_truthy
 
 PROPERTIES = {
+    "C01": {
+        "rules": [rule_dispatch, rule_stable],
+        "technique": "engine-dispatch model + sibling cross-check of kernel signatures (custom AST checker)",
+        "level_text": "Static, all-paths: for every kernel name a blueprint can ask for and every engine, the implementation the dispatch "
+                      "selects has the NaN discipline its name promises, reduces with the ufunc its name promises, replaces NaN by the "
+                      "identity of that operator, numbagg names map to the same-named group_* kernels, fall-backs keep the name, and "
+                      "the group sort feeding the flox engine is stable. Decides the wiring of the engines, not numerical equality.",
+        "explanation": "R-DISPATCH over (kernel, engine) resolutions and engine-module bindings; R-STABLE over argsort sites",
+    },
+    "C05": {
+        "rules": [rule_truthy, rule_parallel],
+        "technique": "def-use fill-family + boolean-context scan; counter-wiring table check (custom AST checker)",
+        "level_text": "Static, all-paths: no fill-value-typed expression (nor the optional min_count) is ever coerced to bool, so falsy "
+                      "fills (0, 0.0, False) cannot be confused with 'not given'; the validity counter that implements min_count extends "
+                      "every parallel tuple. Slot order, mask placement per plan and min_count arithmetic are not decided.",
+        "explanation": "R-TRUTHY over every boolean context of every function; R-PARALLEL over the min_count branch",
+    },
+    "C19": {
+        "rules": [rule_raise, rule_defassign, rule_regkey, rule_kwsig, rule_assert],
+        "technique": "CFG definite-assignment with guard correlation; call-graph reachability of raises; keyword/signature agreement of "
+                     "every resolved call and partial; assert triage table",
+        "level_text": "Static, all-paths: four exact ways an internal error can escape are excluded -- a raise of a class other than "
+                      "ValueError/NotImplementedError/ImportError on an API- or task-reachable path, a local read while unbound, a "
+                      "user-keyed registry lookup that is not converted, a call or partial whose keywords/arity the selected callee "
+                      "does not accept (TypeError inside a task) -- and every assert is triaged (user-reachable ones are findings). "
+                      "Completeness of up-front validation and 'auto works wherever map-reduce does' are not decided.",
+        "explanation": "R-RAISE, R-DEFASSIGN, R-REGKEY, R-KWSIG, R-ASSERT",
+    },
     "C04": {
         "rules": [rule_algebra, rule_parallel],
         "technique": "registry constant-evaluation + table comparison (custom AST checker)",
@@ -24,4 +56,4 @@ NOT_APPLICABLE = {
 
 # properties whose rules are designed (DESIGN.md §3) but not built yet: not claimed until they are
 PENDING = {p: "static rules designed in DESIGN.md but not built yet in this revision; not claimed"
-           for p in ["C01", "C02", "C03", "C05", "C06", "C07", "C08", "C09", "C10", "C11", "C12", "C13", "C14", "C16", "C18", "C19", "C20"]}
+           for p in ["C02", "C03", "C06", "C07", "C08", "C09", "C10", "C11", "C12", "C13", "C14", "C16", "C18", "C20"]}
